@@ -184,7 +184,10 @@ type c03Flag struct {
 	Value int `json:"flag_value"`
 }
 
-var samHeaders = []string{"@HD\tVN:1.0", "@CO\ta \"b\" c", "@CO\t\"q\"", "@SQ\tSN:x\t"}
+var samHeaders = []string{"@HD\tVN:1.0", "@CO\ta \"b\" c", "@CO\t\"q\"", "@SQ\tSN:x\t",
+	"@RG\tID:1\tPL:x\tPU:y\tLB:z\tSM:s\tCN:c\tDS:d\tDT:t\tPI:9\tPG:p", // 11 fields
+	"@CO\t0\tr\t1\t9\t1M\t*\t0\t0\tA\tI\tNM:i:0",                      // 12 fields that look like an alignment
+	"@\t\t\t\t\t\t\t\t\t\t\t\t\t"}                                     // 14 empty fields
 
 func samRecordPool() []samRec {
 	d := defaultSamRec()
